@@ -37,6 +37,7 @@ import (
 	"github.com/vx-labs/wasp/v4/wasp/api"
 	"github.com/vx-labs/wasp/v4/wasp/audit"
 	"github.com/vx-labs/wasp/v4/wasp/distributed"
+	"github.com/vx-labs/wasp/v4/wasp/expiration"
 	"github.com/vx-labs/wasp/v4/wasp/sessions"
 )
 
@@ -635,6 +636,111 @@ func (a *lsAckq) final(ops []lsOp) string {
 	return ""
 }
 
+
+// ---- expiry list used directly (its own locks are its concurrency contract) ----
+type lsExpList struct{ l expiration.List }
+
+func (x *lsExpList) exec(s *Step) string {
+	switch s.K {
+	case "lins":
+		x.l.Insert(s.S, t0.Add(time.Duration(s.J)*time.Millisecond))
+		return "ok"
+	case "ldel":
+		if x.l.Delete(s.S, t0.Add(time.Duration(s.J)*time.Millisecond)) {
+			return "true"
+		}
+		return "false"
+	case "lupd":
+		x.l.Update(s.S, t0.Add(time.Duration(s.J)*time.Millisecond), t0.Add(time.Duration(s.I)*time.Millisecond))
+		return "ok"
+	case "lsweep":
+		var ids []string
+		for _, v := range x.l.Expire(t0.Add(time.Duration(s.J) * time.Millisecond)) {
+			ids = append(ids, fmt.Sprint(v))
+		}
+		sort.Strings(ids)
+		return strings.Join(ids, ",")
+	}
+	return ""
+}
+func (x *lsExpList) init() string                              { return "" }
+func (x *lsExpList) step(state, in, out string) (bool, string) { return true, state }
+
+// Every identifier is inserted once, by one task, which is also the only one to delete or move
+// it: whatever the schedule, it leaves the list exactly once (a successful Delete or one Expire
+// result), and a Delete with the deadline the owner last gave it may only fail when a sweep that
+// had started by then returned it.
+func (x *lsExpList) final(ops []lsOp) string {
+	var rest []string
+	for _, v := range x.l.Expire(t0.Add(1000 * time.Hour)) {
+		rest = append(rest, fmt.Sprint(v))
+	}
+	inserted := map[string]bool{}
+	deleted := map[string]int{}
+	expired := map[string]int{}
+	firstSweep := map[string]int64{} // call stamp of the earliest sweep that returned the id
+	for _, op := range ops {
+		f := strings.Split(op.in, "|")
+		switch f[0] {
+		case "lins":
+			inserted[f[1]] = true
+		case "ldel":
+			if op.out == "true" {
+				deleted[f[1]]++
+			}
+		case "lsweep":
+			if op.out != "" {
+				for _, id := range strings.Split(op.out, ",") {
+					expired[id]++
+					if c, ok := firstSweep[id]; !ok || op.call < c {
+						firstSweep[id] = op.call
+					}
+				}
+			}
+		}
+	}
+	for _, id := range rest {
+		expired[id]++
+	}
+	for id := range inserted {
+		if deleted[id]+expired[id] != 1 {
+			return fmt.Sprintf("identifier %s was inserted once but left the list %d times (%d successful deletes, %d times returned by Expire)", id, deleted[id]+expired[id], deleted[id], expired[id])
+		}
+	}
+	for id, n := range expired {
+		if !inserted[id] && n > 0 {
+			return fmt.Sprintf("Expire returned %s which was never inserted", id)
+		}
+	}
+	// per owner, in program order: a failed delete needs an explanation
+	byTask := map[int][]lsOp{}
+	for _, op := range ops {
+		byTask[op.task] = append(byTask[op.task], op)
+	}
+	for _, tops := range byTask {
+		gone := map[string]bool{}
+		for _, op := range tops {
+			f := strings.Split(op.in, "|")
+			if f[0] != "ldel" {
+				continue
+			}
+			id := f[1]
+			if op.out == "true" {
+				gone[id] = true
+				continue
+			}
+			if !inserted[id] || gone[id] {
+				continue
+			}
+			if c, ok := firstSweep[id]; ok && c < op.ret {
+				continue
+			}
+			return fmt.Sprintf("Delete(%s) with the deadline its owner gave it failed although no sweep had returned it and it had not been deleted", id)
+		}
+	}
+	return ""
+}
+
 // ---- replicated state ----
 type lsRepl struct {
 	st      distributed.State
@@ -962,7 +1068,7 @@ func (o *lsOrigin) final(ops []lsOp) string {
 // ---------------------------------------------------------------------------------------
 // running a case
 
-var lsObjects = []string{"registry", "idpool", "retained", "subscriptions", "sesstopics", "ackq", "repl", "retx", "replmerge", "replorigin"}
+var lsObjects = []string{"registry", "idpool", "retained", "subscriptions", "sesstopics", "ackq", "repl", "retx", "replmerge", "replorigin", "explist"}
 
 func buildLsObject(c *Case) lsObject {
 	switch lsObjects[int(c.knob("obj", 0))%len(lsObjects)] {
@@ -984,6 +1090,8 @@ func buildLsObject(c *Case) lsObject {
 		return newLsRepl()
 	case "replorigin":
 		return &lsOrigin{r: newLsRepl()}
+	case "explist":
+		return &lsExpList{l: expiration.NewList()}
 	case "retx":
 		return &lsRetx{q: ack.NewQueue(), pool: wasp.VerifNewMIDPool(1, 8), size: 8, alive: map[string]bool{"s1": true, "s2": true}, lastT: map[int]*retxGen{}}
 	default:
@@ -1193,6 +1301,39 @@ func genLsOps(r *Rand, objIdx int, c *Case, nt int, perTask int) {
 				}
 			}
 		}
+	case "explist":
+		// ids are owned by the inserting task; deadlines cluster in a few seconds so that concurrent
+		// inserts meet in one bucket, some of them in a second that has no bucket yet
+		for i := 0; i < nt; i++ {
+			type own struct {
+				id string
+				d  int64
+			}
+			var mine []own
+			for n := 0; n < perTask+1; n++ {
+				k := r.Intn(8)
+				if len(mine) == 0 && k >= 4 && k <= 6 {
+					k = 0
+				}
+				switch k {
+				case 0, 1, 2, 3:
+					d := c04Lattice[r.Intn(len(c04Lattice))]
+					id := fmt.Sprintf("i%d.%d", i, n)
+					mine = append(mine, own{id, d})
+					c.Steps = append(c.Steps, Step{K: "lins", C: i, S: id, J: d})
+				case 4, 5:
+					o := mine[r.Intn(len(mine))]
+					c.Steps = append(c.Steps, Step{K: "ldel", C: i, S: o.id, J: o.d})
+				case 6:
+					j := r.Intn(len(mine))
+					nd := c04Lattice[r.Intn(len(c04Lattice))]
+					c.Steps = append(c.Steps, Step{K: "lupd", C: i, S: mine[j].id, J: mine[j].d, I: nd})
+					mine[j].d = nd
+				default:
+					c.Steps = append(c.Steps, Step{K: "lsweep", C: i, J: []int64{0, 900, 1600, 2500, 4200}[r.Intn(5)]})
+				}
+			}
+		}
 	case "replorigin": // every task works on the same few keys
 		for i := 0; i < nt; i++ {
 			for n := 0; n < perTask+1; n++ {
@@ -1295,7 +1436,7 @@ func init() {
 	real := []string{"wasp.lockedMapState, wasp.simpleMidPool, wasp/ack.Queue + expiration lists, topics.Store, subscriptions.Tree, wasp/distributed.State, wasp/sessions.Session (all instrumented with a yield before every statement and scheduler-aware try-locks)", "Go race detector (ThreadSanitizer)"}
 	stub := []string{"goroutine scheduling: tasks released one at a time by the simulator through raw pipe syscalls (no happens-before edges of its own)", "gotomic.Hash, memberlist.TransmitLimitedQueue, protobuf: not instrumented, atomic steps between yields"}
 	assume := []string{"the race detector keeps a bounded access history per location", "linearizability is checked with porcupine for histories of up to 24 operations; a timed-out check is inconclusive and never reported", "the in-flight table and the replicated state are judged by invariants (exactly-once resolution, distinct-key effects present) plus the race detector, not by a full linearizability model"}
-	all := []int{0, 1, 2, 3, 4, 5, 6, 7, 8, 9}
+	all := []int{0, 1, 2, 3, 4, 5, 6, 7, 8, 9, 10}
 	register(&Check{ID: "C09", Level: "exploration", Build: "lockstep", Gen: genLockstep([]int{9}), Run: runLockstep, QuickS: 15, ThoroughS: 200,
 		Rule: "concurrent variant: 2-4 tasks changing the same session, subscription and retained keys on one node under PRNG statement-level schedules, race detector on; afterwards a fresh node fed with every broadcast the origin queued must list exactly what the origin lists",
 		Real: real, Stub: stub, Assume: assume})
@@ -1306,10 +1447,10 @@ func init() {
 		Rule: "concurrent variant: 2-4 tasks driving the writer's protocol (allocate an identifier, register with the retransmit-or-release callback, acknowledge, sweep, end a session) on the real in-flight table and pool under PRNG statement-level schedules, race detector on; each exchange releases its identifier exactly once, is never retransmitted after its acknowledgement was accepted, and the pool drains back to full",
 		Real: real, Stub: append([]string{"writer.sendQoS1's use of the table and the pool is re-implemented by the harness around the real objects (the writer's own methods are unexported)"}, stub...), Assume: assume})
 	register(&Check{ID: "C20", Level: "exploration", Build: "lockstep", Gen: genLockstep(all), Run: runLockstep, QuickS: 40, ThoroughS: 600,
-		Rule: "a case = 2-4 tasks with 1-6 operations each on one shared object (session registry, identifier pool, retained trie, subscription trie, per-session filter list, in-flight table, replicated state) plus the PRNG schedule taken at every statement-level yield; non-trivial when >=2 tasks and >=2 operations; distinct by hash of (operations, schedule)",
+		Rule: "a case = 2-4 tasks with 1-6 operations each on one shared object (session registry, identifier pool, retained trie, subscription trie, per-session filter list, in-flight table, its timeout list, replicated state) plus the PRNG schedule taken at every statement-level yield; non-trivial when >=2 tasks and >=2 operations; distinct by hash of (operations, schedule)",
 		Real: real, Stub: stub, Assume: assume})
-	register(&Check{ID: "C04", Level: "exploration", Build: "lockstep", Gen: genLockstep([]int{5}), Run: runLockstep, QuickS: 15, ThoroughS: 200,
-		Rule: "concurrent variant: 2-4 tasks registering, acknowledging and sweeping on one ack.Queue under PRNG statement-level schedules, race detector on; exactly-once resolution per registered entry",
+	register(&Check{ID: "C04", Level: "exploration", Build: "lockstep", Gen: genLockstep([]int{5, 5, 10}), Run: runLockstep, QuickS: 15, ThoroughS: 200,
+		Rule: "concurrent variant: 2-4 tasks registering, acknowledging and sweeping on one ack.Queue, or inserting, deleting, moving and sweeping on one expiration.List, under PRNG statement-level schedules, race detector on; exactly-once resolution per registered entry",
 		Real: real, Stub: stub, Assume: assume})
 	register(&Check{ID: "C06", Level: "exploration", Build: "lockstep", Gen: genLockstep([]int{1}), Run: runLockstep, QuickS: 15, ThoroughS: 200,
 		Rule: "concurrent variant: 2-4 tasks allocating and releasing on one pool under PRNG statement-level schedules, race detector on; linearizable against the set model (ids handed out concurrently are distinct)",
